@@ -68,3 +68,81 @@ Theorem consist_reload_is_unitwise (c c1 : ConsistR) :
   cn_pdct c1 = cn_pdct c /\ cn_assert_limits c1 = cn_assert_limits c /\ cn_state c1 = cn_state c.
 Proof. rewrite consist_roundtrip. intros H; inversion H; subst c1; clear H. cbn [consist_normalize cn_locos cn_pdct cn_assert_limits cn_state].
   split; [|repeat split]. induction (cn_locos c) as [|l t IH]; constructor; [apply loco_roundtrip|exact IH]. Qed.
+
+(* ---------------------------------------------------------------- "the reloaded consist behaves identically"
+   CInv: every unit's stored input-fraction maps are absent or exactly what the code would rebuild.  It holds of every
+   loaded consist, is kept by every accepted ConsistSimulation step, and under it a step of the reloaded consist is THE
+   SAME as a step of the original - hence resume equivalence over arbitrary traces. *)
+From AltProofs Require Import ConsistP C10P.
+Open Scope R_scope.
+
+Definition CInv (c : ConsistR) : Prop := Forall CacheInv (cn_locos c).
+
+Lemma CInv_normalize (c : ConsistR) : CInv (consist_normalize c).
+Proof. unfold CInv, consist_normalize. cbn [cn_locos]. induction (cn_locos c) as [|l t IH]; constructor; [apply CacheInv_normalize|exact IH]. Qed.
+
+Lemma map_res_limits_clear dt : forall ls : list (Loco (F:=R)), Forall CacheInv ls ->
+  map_res (fun l => loco_set_cur_pwr_max_out l dt) (map loco_normalize ls) = map_res (fun l => loco_set_cur_pwr_max_out l dt) ls.
+Proof. induction ls as [|l t IH]; intros H; [reflexivity|]. inversion H as [|? ? Hl Ht]; subst.
+  cbn [map map_res]. rewrite (loco_limits_clear l dt Hl), (IH Ht). reflexivity. Qed.
+
+Lemma map_aux_normalize on (ls : list (Loco (F:=R))) :
+  map (fun l => loco_set_pwr_aux l on) (map loco_normalize ls) = map loco_normalize (map (fun l => loco_set_pwr_aux l on) ls).
+Proof. induction ls as [|l t IH]; [reflexivity|]. cbn [map]. rewrite IH, loco_aux_normalize. reflexivity. Qed.
+
+Lemma Forall_CacheInv_aux on (ls : list (Loco (F:=R))) : Forall CacheInv ls -> Forall CacheInv (map (fun l => loco_set_pwr_aux l on) ls).
+Proof. induction 1 as [|l t Hl Ht IH]; constructor; [apply (proj2 (CacheInv_aux l on)); exact Hl|exact IH]. Qed.
+
+Theorem consist_step_cache_insensitive (c : ConsistR) pwr dt : CInv c ->
+  consist_sim_solve_step (consist_normalize c) pwr dt = consist_sim_solve_step c pwr dt.
+Proof.
+  intros Hc. unfold consist_sim_solve_step, consist_set_pwr_aux, consist_set_cur_pwr_max_out, consist_normalize.
+  cbn [cn_locos cn_pdct cn_assert_limits cn_state]. rewrite map_aux_normalize.
+  rewrite (map_res_limits_clear dt _ (Forall_CacheInv_aux true _ Hc)). reflexivity.
+Qed.
+
+Lemma map_res_limits_cache dt : forall (ls ls' : list (Loco (F:=R))),
+  map_res (fun l => loco_set_cur_pwr_max_out l dt) ls = Ok ls' -> Forall CacheInv ls -> Forall CacheInv ls'.
+Proof. induction ls as [|l t IH]; intros ls' H Hc; cbn [map_res] in H.
+  - inversion H; constructor.
+  - inversion Hc as [|? ? Hl Ht]; subst. apply bind_ok in H. destruct H as (l1 & H1 & H). apply bind_ok in H.
+    destruct H as (t1 & Ht1 & H). inversion H; subst. constructor; [exact (loco_limits_cache _ _ _ H1 Hl)|exact (IH _ Ht1 Ht)]. Qed.
+
+Lemma solved_cache dt on ls ps ls' : solved dt on ls ps ls' -> Forall CacheInv ls -> Forall CacheInv ls'.
+Proof. induction 1 as [|l p l' ls ps ls' Hs _ IH]; intros Hc; [constructor|].
+  inversion Hc as [|? ? Hl Ht]; subst. constructor; [exact (loco_solve_cache _ _ _ _ _ Hs Hl)|exact (IH Ht)]. Qed.
+
+Theorem consist_step_keeps_CInv (c c' : ConsistR) pwr dt : consist_sim_solve_step c pwr dt = Ok c' -> CInv c -> CInv c'.
+Proof.
+  unfold consist_sim_solve_step. intros H Hc. apply bind_ok in H. destruct H as (c2 & H2 & Hs).
+  assert (Hc2 : CInv c2).
+  { unfold consist_set_cur_pwr_max_out in H2. apply bind_ok in H2. destruct H2 as (ls & Hm & H2). inversion H2; subst c2.
+    unfold CInv. cbn [cn_locos]. eapply map_res_limits_cache; [exact Hm|].
+    unfold consist_set_pwr_aux. cbn [cn_locos]. apply Forall_CacheInv_aux. exact Hc. }
+  destruct (consist_solve_locos _ _ _ _ _ Hs) as (sh & _ & Hsol & _). exact (solved_cache _ _ _ _ _ Hsol Hc2).
+Qed.
+
+(* resume equivalence for ConsistSimulation-style runs ([cstep] of C10P.v) *)
+Lemma cstep_cache_insensitive c i : CInv c -> cstep (consist_normalize c) i = cstep c i.
+Proof. destruct i as [pwr dt]. apply consist_step_cache_insensitive. Qed.
+Lemma run_keeps_CInv ins : forall c c', run cstep c ins = Ok c' -> CInv c -> CInv c'.
+Proof. intros c c' H Hc. revert H. apply (run_inv cstep CInv); [|exact Hc].
+  intros s [pwr dt] s' Hs Hst. exact (consist_step_keeps_CInv _ _ _ _ Hst Hs). Qed.
+
+Definition cresume (c : ConsistR) (pre post : list (R * R)) : res ConsistR :=
+  let? m := run cstep c pre in
+  let? m' := consist_decode (consist_encode m) in
+  run cstep m' post.
+
+Theorem consist_resume_equiv_exact c pre i post : CInv c ->
+  cresume c pre (i :: post) = run cstep c (pre ++ i :: post).
+Proof. intros Hc. unfold cresume. rewrite run_app.
+  destruct (run cstep c pre) as [m| |] eqn:E; cbn [bind]; try reflexivity.
+  rewrite consist_roundtrip. cbn [bind run]. rewrite (cstep_cache_insensitive m i (run_keeps_CInv pre c m E Hc)). reflexivity. Qed.
+
+Theorem consist_resume_equiv c pre post : CInv c ->
+  res_map consist_normalize (cresume c pre post) = res_map consist_normalize (run cstep c (pre ++ post)).
+Proof. intros Hc. destruct post as [|i post].
+  - unfold cresume. rewrite app_nil_r. destruct (run cstep c pre) as [m| |] eqn:E; cbn [bind]; try reflexivity.
+    rewrite consist_roundtrip. cbn [bind run res_map]. rewrite consist_normalize_idem. reflexivity.
+  - rewrite (consist_resume_equiv_exact c pre i post Hc). reflexivity. Qed.
